@@ -73,6 +73,11 @@ class ConnectedStreamClient(_transports.AsyncBaseTransport, Generic[_T_Response]
         with self.__send_guard:
             await self.__transport.aclose()
 
+    async def _aclose_forcefully(self) -> None:
+        # Internal: closes the transport immediately *without* taking the send guard,
+        # so that it also works while another task is blocked in send_packet().
+        await _transports_utils.aclose_forcefully(self.__transport)
+
     async def send_packet(self, packet: _T_Response) -> None:
         """
         Sends `packet` to the remote endpoint.
